@@ -111,7 +111,7 @@ example : run (init false) (demoOps.take 13 ++ [.bcommit false 1]) = none := by 
 def dqWitness : List Op :=
   [.accept ⟨0, 1, 10⟩, .accept ⟨0, 2, 20⟩, .add false ⟨0, 1, 10⟩, .add false ⟨0, 2, 20⟩, .sealB false 0,
    .accept ⟨0, 3, 30⟩, .accept ⟨0, 4, 40⟩, .add false ⟨0, 3, 30⟩, .add false ⟨0, 4, 40⟩, .sealB false 1,
-   .sendFail false 0 [⟨0, 1, 10⟩, ⟨0, 2, 20⟩], .giveUp false [⟨0, 1, 10⟩, ⟨0, 2, 20⟩],
+   .sendFail false 0 [⟨0, 1, 10⟩, ⟨0, 2, 20⟩], .giveUp false 0 [⟨0, 1, 10⟩, ⟨0, 2, 20⟩],
    .add true ⟨0, 1, 10⟩, .add true ⟨0, 2, 20⟩, .bcommit false 0,
    .sendOk false 1 [⟨0, 3, 30⟩, ⟨0, 4, 40⟩], .bcommit false 1, .commit ⟨0, 3, 30⟩]
 
